@@ -30,25 +30,21 @@ structure St where
   committedH : Array TrieStore.TH := #[]
 
 /-- A stand-in for the hash function in the `updatedNodes` bookkeeping (the driver never evaluates SHA-256, and
-`wset` compares paths, not hash values): four independent 64-bit multiplicative lanes, 32 bytes of output. Only
+`wset` compares paths, not hash values): two 64-bit multiplicative lanes, 16 bytes of output. Only
 equality of hashes matters there; an accidental collision of this stand-in would show as a spurious trace
 difference, never hide one silently in a proof. -/
 def mixH (x : List UInt8) : List UInt8 :=
   let m1 : UInt64 := 0x100000001b3
   let m2 : UInt64 := 0x9E3779B97F4A7C15
-  let m3 : UInt64 := 0xff51afd7ed558ccd
-  let m4 : UInt64 := 0xc4ceb9fe1a85ec53
-  let m5 : UInt64 := 0xd6e8feb86659fd93
-  let a5 : UInt64 := 0x2545F4914F6CDD1D
-  let s := x.foldl (fun (s : UInt64 × UInt64 × UInt64 × UInt64) b =>
+  let s := x.foldl (fun (s : UInt64 × UInt64) b =>
     let v : UInt64 := b.toUInt64 + 1
-    ((s.1 ^^^ v) * m1,
-     ((s.2.1 + v) * m2) ^^^ ((s.2.1 + v) >>> 31),
-     (s.2.2.1 ^^^ (v * m3)) * m4 + a5,
-     ((s.2.2.2 + s.1 + v) * m5) ^^^ (s.2.2.2 >>> 27)))
-    ((0xcbf29ce484222325 : UInt64), (0x84222325cbf29ce4 : UInt64), (0x0123456789abcdef : UInt64), (0xfedcba9876543210 : UInt64))
-  let out (w : UInt64) : List UInt8 := (List.range 8).map fun i => (w >>> (8 * i.toUInt64)).toUInt8
-  out s.1 ++ out s.2.1 ++ out s.2.2.1 ++ out s.2.2.2
+    ((s.1 ^^^ v) * m1, ((s.2 + v) * m2) ^^^ ((s.2 + v) >>> 31) ^^^ s.1))
+    ((0xcbf29ce484222325 : UInt64), (0x84222325cbf29ce4 : UInt64))
+  let a := s.1
+  let b := s.2
+  [a.toUInt8, (a >>> 8).toUInt8, (a >>> 16).toUInt8, (a >>> 24).toUInt8, (a >>> 32).toUInt8, (a >>> 40).toUInt8,
+   (a >>> 48).toUInt8, (a >>> 56).toUInt8, b.toUInt8, (b >>> 8).toUInt8, (b >>> 16).toUInt8, (b >>> 24).toUInt8,
+   (b >>> 32).toUInt8, (b >>> 40).toUInt8, (b >>> 48).toUInt8, (b >>> 56).toUInt8]
 
 def symCtx : HashCtx := { H := mixH, enc := TrieBatch.packBits }
 
